@@ -31,6 +31,7 @@ import (
 	"sync"
 	"time"
 
+	"github.com/youchainhq/go-youchain/bls"
 	"github.com/youchainhq/go-youchain/common"
 	"github.com/youchainhq/go-youchain/consensus/ucon"
 	"github.com/youchainhq/go-youchain/core/rawdb"
@@ -73,6 +74,9 @@ type Env struct {
 	EvidOn  bool      `json:"evid_on"`
 	// real mode only
 	Real    bool     `json:"real,omitempty"`
+	// Bls (real mode only): the protocol parameters enable BLS: members sign their votes
+	// with BLS keys, PackVotes aggregates, verifyVotes checks the aggregate
+	Bls bool `json:"bls,omitempty"`
 	Stakes  []uint64 `json:"stakes,omitempty"` // stake of sender j (index 0 = self)
 	ValThr  uint64   `json:"val_thr,omitempty"`
 	SeedTag uint64   `json:"seed_tag,omitempty"`
@@ -142,6 +146,7 @@ func vtIndex(t ucon.VoteType) int {
 
 const nKeys = 13 // key 0 = the voter itself
 
+var blsKeys []bls.SecretKey // BLS key of member i (BLS-mode cases)
 var keys []*ecdsa.PrivateKey
 var addrs []common.Address
 var addrID = map[common.Address]int{}
@@ -159,6 +164,8 @@ func setupUniverse() {
 			panic(err)
 		}
 		keys = append(keys, k)
+		bsk, _ := bls.NewBlsManager().GenerateKey()
+		blsKeys = append(blsKeys, bsk)
 		a := crypto.PubkeyToAddress(k.PublicKey)
 		addrs = append(addrs, a)
 		addrID[a] = i
@@ -373,7 +380,7 @@ type fakeParams struct {
 
 func (f *fakeParams) CurrentCaravelParams() *params.CaravelParams {
 	yp := f.yp
-	yp.EnableBls = false
+	yp.EnableBls = f.h.Env.Real && f.h.Env.Bls
 	return &yp.CaravelParams
 }
 func (f *fakeParams) CertificateParams(round *big.Int) (*params.CaravelParams, error) {
@@ -537,8 +544,15 @@ func newImpl(h *History) *impl {
 	count := func(round *big.Int, kind params.ValidatorKind, lb params.LookBackType) uint64 { return 0 }
 	db := youdb.NewMemDatabase()
 	im.mk = func() *ucon.Voter {
-		v := ucon.NewVoter(db, keys[0], nil, mux, verifySort, isValidator, maxPrio, inCache, getStake, count, im.pm)
+		var own bls.SecretKey
+		if h.Env.Real && h.Env.Bls {
+			own = blsKeys[0]
+		}
+		v := ucon.NewVoter(db, keys[0], own, mux, verifySort, isValidator, maxPrio, inCache, getStake, count, im.pm)
 		v.SetLookBackMgr(im.pm)
+		if im.srv != nil {
+			ucon.VerifC03ShareBlsVerifier(im.srv, v) // as StartMining does
+		}
 		return v
 	}
 	im.v = im.mk()
@@ -553,7 +567,15 @@ func (im *impl) setupReal() {
 	var vals []*state.Validator
 	for j, st := range h.Env.Stakes {
 		pub := crypto.CompressPubkey(&keys[j].PublicKey)
-		v := state.NewValidator(fmt.Sprintf("v%d", j), addrs[j], addrs[j], params.RoleSenator, pub, nil,
+		var blsPub []byte
+		if h.Env.Bls {
+			pk, err := blsKeys[j].PubKey()
+			if err != nil {
+				panic(err)
+			}
+			blsPub = pk.Compress().Bytes()
+		}
+		v := state.NewValidator(fmt.Sprintf("v%d", j), addrs[j], addrs[j], params.RoleSenator, pub, blsPub,
 			new(big.Int).SetUint64(st), new(big.Int).SetUint64(st), 0, 0, 0, params.ValidatorOnline)
 		vals = append(vals, v)
 	}
@@ -663,6 +685,24 @@ func (im *impl) buildMsg(m *MsgOp) (*ucon.BlockHashWithVotes, common.Address) {
 		vote.Proof = stubProof(m.Sender, m.R, m.I, otherT)
 	default:
 		vote.Proof = []byte{1, 2, 3}
+	}
+	if im.h.Env.Real && im.h.Env.Bls && m.Sender < len(im.h.Env.Stakes) {
+		if idx, ok := im.reader.set.GetIndex(addrs[m.Sender]); ok {
+			vote.VoterIdx = uint32(idx)
+		}
+		switch m.Sig {
+		case 0, 3:
+			vote.Signature = blsKeys[m.Sender].Sign(votePayload(hashes[m.H], m.R, m.I)).Compress().Bytes()
+			if m.Sig == 3 {
+				claimed = addrs[(m.Sender+1)%nKeys]
+			}
+		case 1:
+			vote.Signature = blsKeys[m.Sender].Sign(votePayload(hashes[m.H], m.R+1, m.I)).Compress().Bytes()
+		default:
+			vote.Signature = []byte{1, 2, 3, 4}
+		}
+		msg.Vote = vote
+		return msg, claimed
 	}
 	switch m.Sig {
 	case 0, 3:
@@ -1215,6 +1255,38 @@ func (o *oracle) verifyCommit(e *Event) {
 	if certRound != ctxCert {
 		return // the context's certificate flag contradicts the round number: PackVotes and the voter disagree by construction
 	}
+	// object-identity probe (BLS mode): what the shared caches hand out for a signature
+	// must still be that signature after packing - cache entries are immutable
+	bmode := o.h.Env.Real && o.h.Env.Bls
+	type cached struct {
+		id  int
+		raw []byte
+	}
+	var rawSigs []cached
+	// (Compress() of a decoded signature returns bytes memoised at decoding time, so the
+	// probe asks the object itself: does it still verify under its member's key?)
+	sigVerifies := func(c cached) bool {
+		pk, err := blsKeys[c.id].PubKey()
+		if err != nil {
+			return false
+		}
+		sig, err := ucon.VerifC03BlsVerifier(o.im.v).GetBlsSig(c.raw)
+		return err == nil && pk.Verify(votePayload(ev.Block.Hash(), ev.Round.Uint64(), ev.RoundIndex), sig) == nil
+	}
+	if bmode {
+		for _, set := range []ucon.VotesInfoForBlockHash{ev.ChamberPrecommits, ev.ChamberCerts} {
+			for a, v := range set {
+				if id, ok := addrID[a]; ok {
+					c := cached{id, append([]byte{}, v.Signature...)}
+					if sigVerifies(c) {
+						rawSigs = append(rawSigs, c)
+					}
+				}
+			}
+		}
+	}
+	// as Server.commit does: the precommits first, then the certificate votes, on the
+	// voter's own (shared) BlsVerifier
 	uv, err := o.im.v.PackVotes(ev, params.LookBackPos)
 	if err != nil {
 		o.hit("commit_pack_failed: PackVotes: " + err.Error())
@@ -1252,8 +1324,9 @@ func (o *oracle) verifyCommit(e *Event) {
 		decayed = true
 		o.hit(fmt.Sprintf(class+": precommit set packed for block %d at (%d,%d) re-counts to %d < quorum %d", e.H, e.R, e.I, got, goQuorum(thrP, true)))
 	}
+	var uc *ucon.UconValidators
 	if certRound {
-		uc, err := o.im.v.PackVotes(ev, params.LookBackCert)
+		uc, err = o.im.v.PackVotes(ev, params.LookBackCert)
 		if err != nil {
 			o.hit("commit_pack_failed: PackVotes(cert): " + err.Error())
 			return
@@ -1274,6 +1347,48 @@ func (o *oracle) verifyCommit(e *Event) {
 		}
 		if err == nil && decayed && !certRound {
 			o.hit(fmt.Sprintf("verifier_accepts_short_set: Server.verifyVotes accepts a precommit set for block %d at (%d,%d) that re-counts below the quorum", e.H, e.R, e.I))
+		}
+		if uc != nil && !decayed {
+			// and the certificate container, with the certificate look-back parameters
+			cp, _ := o.im.pm.CertificateParams(ev.Round)
+			err := ucon.VerifC03VerifyVotes(o.im.srv, cp, o.im.reader, ev.Block.Hash().Bytes(), o.im.seed,
+				ev.Round, uc.RoundIndex, o.h.Env.ValThr, uc.ChamberCerts, uc.CCAggrSig, uint32(ucon.Certificate), params.KindChamber, false)
+			if err != nil {
+				o.hit(fmt.Sprintf("commit_rejected_by_verifier: Server.verifyVotes rejects the certificate set packed for block %d at (%d,%d): %v", e.H, e.R, e.I, err))
+			}
+		}
+	}
+	if bmode {
+		for _, c := range rawSigs {
+			if !sigVerifies(c) {
+				o.hit(fmt.Sprintf("bls_cache_entry_changed: the cached signature object of member %d verified under the member's key before the commit of block %d at (%d,%d) was packed and no longer does afterwards: packing modified a cache entry", c.id, e.H, e.R, e.I))
+				break
+			}
+		}
+		// every member whose vote is in the commit sends that vote once more: a duplicate
+		// of a counted vote must be ignored, not reported as invalid
+		o.redeliver(e, 1, e.CP)
+		o.redeliver(e, 3, e.CC)
+	}
+}
+
+// redeliver re-sends the (valid, counted) votes of a commit's set to the voter.
+func (o *oracle) redeliver(e *Event, t int, set [][2]int) {
+	for _, p := range set {
+		if p[0] == 0 {
+			continue
+		}
+		for _, m := range allMsgs(o.h) {
+			if m.Sender == p[0] && m.R == e.R && m.I == e.I && m.T == t && m.H == e.H && int(m.Votes) == p[1] && m.Sig == 0 && o.credTruth(m) && !m.NoVote {
+				mm := *m
+				mm.Status = 2
+				ret := o.im.applyInner(&Op{K: "msg", M: &mm})
+				drain()
+				if ret != 0 {
+					o.hit(fmt.Sprintf("duplicate_vote_reported_invalid: after the commit of block %d at (%d,%d) the %s vote of sender %d, already counted, is delivered again and processVoteMsg reports it as invalid instead of ignoring the duplicate", e.H, e.R, e.I, vtName[t], p[0]))
+				}
+				break
+			}
 		}
 	}
 }
@@ -1324,11 +1439,20 @@ func (o *oracle) recount(votes []ucon.SingleVote, ev ucon.CommitEvent, t int) ui
 	payload := votePayload(ev.Block.Hash(), ev.Round.Uint64(), ev.RoundIndex)
 	var sum uint64
 	for _, v := range votes {
-		pub, err := ucon.GetSignaturePublicKey(payload, v.Signature)
-		if err != nil {
-			continue
+		var a common.Address
+		if o.h.Env.Real && o.h.Env.Bls {
+			val, ok := o.im.reader.set.GetByIndex(int(v.VoterIdx))
+			if !ok {
+				continue
+			}
+			a = val.MainAddress()
+		} else {
+			pub, err := ucon.GetSignaturePublicKey(payload, v.Signature)
+			if err != nil {
+				continue
+			}
+			a = crypto.PubkeyToAddress(*pub)
 		}
-		a := crypto.PubkeyToAddress(*pub)
 		if seen[a] {
 			continue
 		}
@@ -2304,21 +2428,40 @@ func genContexts(r *vf.Rng) History {
 // real mode: a fake chain and validator set, real VRF credentials, the real
 // Server.verifySortition / getLookbackStakeInfo behind the voter and the real
 // Server.verifyVotes on every commit
-func genReal(r *vf.Rng) History {
+func genReal(r *vf.Rng, blsMode bool) History {
 	h := History{Consistent: true}
 	h.Env.Real, h.Env.CertpOk, h.Env.EvidOn = true, true, r.Chance(50)
+	h.Env.Bls = blsMode
 	n := 3 + r.Intn(7)
+	if blsMode {
+		n = 3 + r.Intn(3) // every BLS vote costs a pairing: keep the committee small
+	}
 	for j := 0; j <= n; j++ {
 		h.Env.Stakes = append(h.Env.Stakes, uint64(5+r.Intn(200)))
 	}
 	h.Env.ValThr = uint64(3 + r.Intn(40))
 	h.Env.SeedTag = uint64(r.Intn(1 << 20))
-	cert := r.Chance(40)
+	cert := r.Chance(40) || blsMode
 	round := uint64(11 + r.Intn(5))
 	if cert {
 		round = 32768 * uint64(1+r.Intn(2))
 	}
 	idx := uint32(1 + r.Intn(3))
+	if blsMode {
+		// a committee whose precommit and certificate seats both reach the quorum
+		for try := 0; try < 40; try++ {
+			var pc, ce uint64
+			for j := 0; j <= n; j++ {
+				_, a := realSortition(&h, j, idx, 1)
+				_, b := realSortition(&h, j, idx, 3)
+				pc, ce = pc+uint64(a), ce+uint64(b)
+			}
+			if pc >= uint64(goQuorum(h.Env.ValThr, true)) && ce >= uint64(goQuorum(h.Env.ValThr, false)) {
+				break
+			}
+			h.Env.SeedTag = uint64(r.Intn(1 << 20))
+		}
+	}
 	lead := 1 + r.Intn(nBlocks)
 	other := 1 + (lead % nBlocks)
 	for t := 0; t < 4; t++ {
@@ -2499,7 +2642,9 @@ func gen(seed uint64, n int, outDir, corpusDir string) {
 		case r.Chance(30):
 			hs = append(hs, genFlow(r))
 		case r.Chance(25):
-			hs = append(hs, genReal(r))
+			hs = append(hs, genReal(r, false))
+		case r.Chance(6):
+			hs = append(hs, genReal(r, true))
 		case r.Chance(15):
 			hs = append(hs, genContexts(r))
 		default:
@@ -2516,6 +2661,9 @@ func gen(seed uint64, n int, outDir, corpusDir string) {
 			res.OracleHits = append(res.OracleHits, hit{whatKey(w), w, *h})
 		}
 		res.Distribution["during_overtook_the_message"] += rr.overtook
+		if h.Env.Bls {
+			res.Count("case_bls")
+		}
 		if h.Env.Real {
 			res.Count("case_real")
 			res.Distribution["real_verifyVotes_calls"] += rr.realVerified
